@@ -93,6 +93,24 @@ def enumDays (spec : Bool) (args : List String) (out : IO.FS.Stream) : IO Unit :
             buf := buf ++ s!"{y} {m} {d} {r.getD REFUSED}\n"
       out.putStr buf
 
+def firstTwo (s : String) : String :=
+  match s.splitOn " " with
+  | a :: b :: _ => s!"{a} {b}"
+  | _ => s
+
+def enumDays8 (spec : Bool) (args : List String) (out : IO.FS.Stream) : IO Unit := do
+  forRange 1 9999 fun y => do
+    if yearSelected y args then
+      let mut buf := ""
+      for mi in [1:13] do
+        for di in [1:32] do
+          let m : Int := mi
+          let d : Int := di
+          if solarDayOk y m d then
+            let r := if spec then specDay y m d else modelDay y m d
+            buf := buf ++ s!"{y} {m} {d} {(r.map firstTwo).getD REFUSED}\n"
+      out.putStr buf
+
 def enumHours (spec : Bool) (out : IO.FS.Stream) : IO Unit := do
   let mut x : Int × Int × Int := (2024, 1, 1)
   for _ in [0:60] do
@@ -106,6 +124,8 @@ def runEnum (name : String) (args : List String) (out : IO.FS.Stream) : Option (
   match name with
   | "c07.days" => some (enumDays false args out)
   | "c07.days.spec" => some (enumDays true args out)
+  | "c08.days" => some (enumDays8 false args out)
+  | "c08.days.spec" => some (enumDays8 true args out)
   | "c09.hours" => some (enumHours false out)
   | "c09.hours.spec" => some (enumHours true out)
   | _ => none
